@@ -10,6 +10,7 @@
 -/
 import SA.Props.C14
 import SA.Proofs.Socks
+import SA.Gen.PkgVars
 namespace SA.Pipe
 
 structure DInv (B : List Nat) (s : St) : Prop where
@@ -394,3 +395,16 @@ end SA.Socks
 #print axioms SA.Socks.C17_socks_conn_half_closes
 #print axioms SA.Socks.C17_socks_app_close_releases
 #print axioms SA.Socks.C17_witness_socks_no_half_close
+
+namespace SA.PkgState
+/-- **no_hidden_process_state**: the models of this property are functions of their arguments and of the objects they are
+    handed; the packages they model keep no package-level variables besides these (regenerated inventory: error
+    sentinels, tables, compiled patterns, the two session time-outs).  A new package-level variable — a counter, a cache, a
+    scratch buffer, a shared map, a registry — would make later calls depend on earlier ones, or concurrent calls on each
+    other, outside anything a per-call comparison of model and code can see. -/
+theorem C17_no_hidden_process_state :
+    Gen.pkgVarNames_streams = ["Localhost"] ∧
+    Gen.pkgVarNames_server = ["ChannelRegex"] := by decide
+end SA.PkgState
+
+#print axioms SA.PkgState.C17_no_hidden_process_state
